@@ -564,7 +564,8 @@ TRANSLATED = {
     "C04": ["tr_termination.py -> Gen/GenTermination.v (TerminationCheck)",
             "tr_classify.py -> Gen/GenClassify.v (rc_classify and the shape of the branches of _generate_data_point / _eval_output)"],
     "C05": ["tr_regex.py -> Gen/GenRegex.v (every re.compile of rebench/interop, parsed with CPython's re._parser)"],
-    "C06": ["tr_facts.py -> Gen/GenFactsPersist.v (header_iff_empty, persist_locked)"],
+    "C06": ["tr_facts.py -> Gen/GenFactsPersist.v (header_iff_empty, persist_locked, open_locked, store_one_persistence_per_name, "
+            "persistences_are_a_set, every_persistence_gets_the_data_point, experiment_adds_its_file)"],
     "C07": ["tr_identity.py -> Gen/GenIdentity.v (as_dict / from_dict / __init__ / __eq__ of six identity classes)"],
     "C08": ["tr_termination.py -> Gen/GenTermination.v", "tr_facts.py -> Gen/GenFactsSession.v (load_before_execute, close_in_finally)"],
     "C09": ["tr_facts.py -> Gen/GenFactsPersist.v (persist_locked)"],
